@@ -1239,9 +1239,7 @@ Definition mpmc_no_lost_wakeup_statement : Prop :=
    finds the token already there and drops its own (select default); receiver 0 takes the token
    and the first item and returns (10 steps).  Receiver 1 is parked, p.empty holds no token, the
    channel is open, item 8 is published at the tail, every other thread has finished. *)
-Definition lw_progs : list (list op) := [[ORecv]; [ORecv]; [OSend 7%N]; [OSend 8%N]].
-Definition lw_sched : list nat :=
-  repeat 0 5 ++ repeat 1 5 ++ repeat 2 10 ++ repeat 3 10 ++ repeat 0 10.
+(* [lw_progs], [lw_sched] are defined in Conc/Mpmc.v *)
 
 Theorem mpmc_lost_wakeup_refuted_lemma :
   exists c e progs sched r s,
